@@ -45,7 +45,27 @@ func VerifLifecycleStop() {
 		<-served
 	}
 	verifObserve("phase", 1)
-	err := svc.StopAndWait(ctx, "pl")
+	// either the user stops the pipeline, or the server shuts down (StopAll with
+	// the graceful-shutdown reason, then Wait and the persister quiesce, as the
+	// runtime does)
+	system := verifBool("systemShutdown")
+	if verifBool("slowDestination") {
+		for _, d := range w.dests {
+			d.slow = true
+		}
+	}
+	var err error
+	if system {
+		_ = svc.StopAll(ctx, false)
+		err = svc.Wait(lPick(time.Hour, 10*time.Second))
+		lConnectorService{w}.WaitPersisted()
+	} else {
+		err = svc.StopAndWait(ctx, "pl")
+	}
+	if system {
+		// every plugin answers and the DLQ tolerates every rejection: the drain completes
+		verifAssert(err == nil, "c06-graceful-shutdown-of-healthy-pipeline-failed")
+	}
 	verifObserve("stop-and-wait", err != nil)
 	if err == nil {
 		// C06: when stop-and-wait returns without error everything is already true
@@ -59,7 +79,11 @@ func VerifLifecycleStop() {
 		w.checkDrained()
 		verifAssert(acked <= emitted, "c06-acknowledged-more-than-read")
 		verifAssert(stored == acked-1, "c06-stored-position-not-last-ack")
-		verifAssert(w.lastStatus() == pipeline.StatusUserStopped, "c11-status-after-graceful-stop")
+		if system {
+			verifAssert(w.lastStatus() == pipeline.StatusSystemStopped, "c11-status-after-graceful-stop")
+		} else {
+			verifAssert(w.lastStatus() == pipeline.StatusUserStopped, "c11-status-after-graceful-stop")
+		}
 		w.checkReleased("c06")
 		verifCover("stopped")
 		// C11/C03: the pipeline can be started again and resumes from the durable position
